@@ -78,6 +78,30 @@ def choose : Nat → Nat → Nat
 /-- `exp(log_kappa(d))`: `binom(N-2, d-2) * d * (d-1) / 2` -/
 def kappa (N d : Nat) : Rat := (choose (N - 2) (d - 2) : Nat) * (d : Rat) * ((d : Rat) - 1) / 2
 
+/-! ### `log_kappa` / `log_binomial`: the binomial coefficient in log space
+
+`log_binomial(n, k) = np.log(np.arange(n - k + 1, n + 1)).sum() - np.log(np.arange(1, k + 1)).sum()` never forms the
+coefficient: it holds it as the two products whose factors it takes the logarithms of.  The model keeps exactly these
+two products (exact naturals of any size; this is also how the driver evaluates `kappa` for thousands of nodes, where
+Pascal's rule is hopeless); `C15_log_binomial` / `C15_log_kappa` say that the sums of logarithms are `log C(n,k)` and
+`log kappa`. -/
+
+/-- product of `np.arange(lo, lo + len)` -/
+def prodFrom (lo : Nat) : Nat → Nat
+  | 0 => 1
+  | len + 1 => prodFrom lo len * (lo + len)
+
+/-- product of `np.arange(n - k + 1, n + 1)` -/
+def binomNum (n k : Nat) : Nat := prodFrom (n - k + 1) k
+
+/-- product of `np.arange(1, k + 1)` -/
+def binomDen (k : Nat) : Nat := prodFrom 1 k
+
+/-- `exp(log_kappa(d))` from the two products of `log_binomial(N - 2, d - 2)` and the factors `d`, `d - 1`, `1/2` whose
+logarithms `log_kappa` adds -/
+def kappaProd (N d : Nat) : Rat :=
+  ((binomNum (N - 2) (d - 2) : Nat) : Rat) / ((binomDen (d - 2) : Nat) : Rat) * (d : Rat) * ((d : Rat) - 1) / 2
+
 /-- summand of `C`: `2 / (d * (d - 1))` -/
 def Cterm (d : Nat) : Rat := 2 / ((d : Rat) * ((d : Rat) - 1))
 
